@@ -353,6 +353,8 @@ pub struct ExecCfg {
     pub long_yield: usize,
     /// offer "sleep until every other task has gone idle" at sched points as one deviation
     pub quiesce: bool,
+    /// build the runtime with the I/O driver (a scenario that binds a real socket; never for explored schedules)
+    pub enable_io: bool,
 }
 
 impl Default for ExecCfg {
@@ -364,6 +366,7 @@ impl Default for ExecCfg {
             watchdog: Duration::from_secs(60),
             long_yield: 0,
             quiesce: false,
+            enable_io: false,
         }
     }
 }
@@ -401,11 +404,12 @@ pub fn run_exec(sc: &ScenarioFn, cfg: &ExecCfg, prefix: &[u16], expect_hash: u64
             let old = anytls_rs::verif::install(Some(Rc::new(HookImpl)));
             let horizon = cfg2.horizon;
             let res = std::panic::catch_unwind(std::panic::AssertUnwindSafe(|| {
-                let rt = tokio::runtime::Builder::new_current_thread()
-                    .enable_time()
-                    .start_paused(true)
-                    .build()
-                    .expect("runtime");
+                let mut b = tokio::runtime::Builder::new_current_thread();
+                b.enable_time().start_paused(true);
+                if cfg2.enable_io {
+                    b.enable_io();
+                }
+                let rt = b.build().expect("runtime");
                 let out = rt.block_on(async move {
                     match tokio::time::timeout(horizon, sc()).await {
                         Ok(o) => o,
